@@ -6,6 +6,7 @@
    __getitem__ (normalize_index, the all-colon shortcut, SliceSlicesIntegers) denotes
    NumPy's basic slice  x[ix]. *)
 From DA Require Import PyBase Slicing NdArray NdArrayFacts ExprRules ExprRulesFacts.
+From DA Require Import FuseFacts ProgSem ProgSemFacts ProgSemLaws ProgSemReduce ProgSemBcast ProgSemDen.
 Open Scope Z_scope.
 
 (* x[ix]: element j along a sliced axis is read from position nth j (sel s n) of that axis,
@@ -46,3 +47,228 @@ Print Assumptions C01_slice_reads_in_bounds.
 Print Assumptions C01_broadcast_reads_in_bounds.
 Print Assumptions C01_transpose_reads_in_bounds.
 Print Assumptions C01_getitem_denotes_numpy_slice.
+
+(* ====================================================================== *)
+(* The REFERENCE SEMANTICS of the program language (theories/ProgSem.v): [eval : prog -> option ndarr]
+   computes the flat C-order value (shape, data) of a program over the public array API (integer
+   subset), None where NumPy raises; [pshape] is the advertised-shape rule.  harness/c01.py
+   (fam_semantics) checks on every run, by vm_compute, that  eval p = Some (NumPy's result)  for
+   generated programs, that NumPy raises where eval is None, and that  pshape p  is the shape
+   dask_array advertises before computing; dask_array's computed result is compared with NumPy's
+   by the same harness.  The theorems below hold for ALL programs. *)
+
+(* (a) every evaluated program is a well-formed array: one datum per index, no negative dimension *)
+Theorem C01_eval_wellformed :
+  forall p a, eval p = Some a ->
+  Z.of_nat (length (ndata a)) = prodZ (nshape a) /\ Forall (fun n => 0 <= n) (nshape a).
+Proof. exact eval_wf_flat. Qed.
+
+(* (b) the advertised shape (computed from shapes alone) is the shape of the computed value ... *)
+Theorem C01_advertised_shape_is_computed_shape :
+  forall p a, eval p = Some a -> pshape p = Some (nshape a).
+Proof. exact eval_some_pshape. Qed.
+
+(* ... and the shape rule rejects a program exactly when evaluation fails (every error of this
+   subset is a shape error) *)
+Theorem C01_shape_rule_fails_iff_eval_fails :
+  forall p, pshape p = None <-> eval p = None.
+Proof. exact pshape_none_iff. Qed.
+
+Theorem C01_shape_rule_total_on_valid :
+  forall p s, pshape p = Some s -> exists a, eval p = Some a /\ nshape a = s.
+Proof. exact pshape_some_eval. Qed.
+
+(* every operation of the language reads its operands IN BOUNDS: on valid operands its result (on the
+   result's index space) depends only on the operands' values on their own index spaces *)
+Theorem C01_every_unary_operation_reads_in_bounds :
+  forall o y y', nonneg_shape (shape y) -> un_ok o (shape y) = true -> aeq y y' -> aeq (un_arr o y) (un_arr o y').
+Proof. exact un_congr_all. Qed.
+
+Theorem C01_every_nary_operation_reads_in_bounds :
+  forall o xs ys, Forall (fun x => nonneg_shape (shape x)) xs -> n_ok o (map shape xs) = true ->
+  Forall2 aeq xs ys -> aeq (n_arr o xs) (n_arr o ys).
+Proof. exact n_congr_all. Qed.
+
+(* hence the flat evaluator (which materialises every intermediate array, and is what the harness runs
+   against NumPy) is the row-major tabulation of the compositional index-function denotation [pden]
+   of the NdArray.v calculus, for ALL programs *)
+Theorem C01_eval_is_tabulated_denotation :
+  forall p, eval p = option_map to_nd (pden p).
+Proof. exact eval_is_tabulated_den. Qed.
+
+(* (c) chunking independence: rechunk is the identity on values and shapes *)
+Theorem C01_rechunk_is_identity :
+  forall c p, eval (PRechunk c p) = eval p /\ pshape (PRechunk c p) = pshape p.
+Proof. intros c p. split; [exact (eval_rechunk c p) | exact (pshape_rechunk c p)]. Qed.
+
+(* --- the algebraic laws behind the optimizer's pushdowns; each says: whenever the program on the
+   left is valid, the rewritten program is valid and computes the same array --- *)
+
+(* one axis: ONE slice selects what slicing twice selects, for all non-zero steps (compose_sel is the
+   specification-side composition; the library's _compose_slices is exact for unit steps only,
+   FuseFacts.compose_slices_general_refuted) *)
+Theorem C01_compose_sel_exact :
+  forall o i n, 0 <= n -> step_of o <> 0 -> step_of i <> 0 ->
+  sel (compose_sel o i n) n = pick (sel o n) (sel i (slice_len o n)) /\ step_of (compose_sel o i n) <> 0.
+Proof. exact compose_sel_exact. Qed.
+
+(* slice of slice composes (one slice per axis, any non-zero steps) *)
+Theorem C01_slice_of_slice :
+  forall sl1 sl2 p s r,
+  pshape p = Some s -> length sl1 = length s -> length sl2 = length s ->
+  sl_okb sl1 = true -> sl_okb sl2 = true ->
+  eval (PSlice (map ISlice sl2) (PSlice (map ISlice sl1) p)) = Some r ->
+  eval (PSlice (map ISlice (map3 compose_sel sl1 sl2 s)) p) = Some r.
+Proof. exact eval_slice_slice. Qed.
+
+(* the same with the library's own composition (Slicing.compose_slices = _compose_slices), unit steps *)
+Theorem C01_slice_of_slice_library_compose :
+  forall sl1 sl2 p s r,
+  pshape p = Some s -> length sl1 = length s -> length sl2 = length s ->
+  forallb unit_stepb sl1 = true -> forallb unit_stepb sl2 = true ->
+  eval (PSlice (map ISlice sl2) (PSlice (map ISlice sl1) p)) = Some r ->
+  eval (PSlice (map ISlice (map3 compose_slices sl1 sl2 s)) p) = Some r.
+Proof. exact eval_slice_slice_unit. Qed.
+
+(* slice distributes over an element-wise operation whose operands have one shape (any basic index:
+   integers, slices with any step, None, fewer entries than axes) *)
+Theorem C01_slice_over_elemwise :
+  forall f ix ps s r,
+  Forall (fun p => pshape p = Some s) ps ->
+  eval (PSlice ix (PElem f ps)) = Some r ->
+  eval (PElem f (map (fun p => PSlice ix p) ps)) = Some r.
+Proof. exact eval_slice_elemwise. Qed.
+
+(* ... and WITH broadcasting: each operand is indexed by the entries that fall on its own axes (right
+   aligned), with a full slice where it is stretched; [oshape p] is p's advertised shape *)
+Theorem C01_slice_over_elemwise_broadcasting :
+  forall f sl ps o r,
+  pshape (PElem f ps) = Some o -> length sl = length o ->
+  eval (PSlice (map ISlice sl) (PElem f ps)) = Some r ->
+  eval (PElem f (map (fun p => PSlice (map ISlice (bc_index sl (oshape p) o)) p) ps)) = Some r.
+Proof. exact eval_slice_elemwise_bcast. Qed.
+
+(* transpose of transpose composes *)
+Theorem C01_transpose_of_transpose :
+  forall p q x r, eval (PT q (PT p x)) = Some r -> eval (PT (pickn O p q) x) = Some r.
+Proof. exact eval_transpose_transpose. Qed.
+
+(* slice commutes with transpose: the index is permuted by the inverse permutation *)
+Theorem C01_slice_over_transpose :
+  forall axes sl p s r,
+  pshape p = Some s -> length sl = length s ->
+  eval (PSlice (map ISlice sl) (PT axes p)) = Some r ->
+  eval (PT axes (PSlice (map ISlice (pickn colon sl (inv_axes axes))) p)) = Some r.
+Proof. exact eval_slice_transpose. Qed.
+
+(* flip = slice with step -1 (an equation: both sides fail together) *)
+Theorem C01_flip_is_negative_step_slice :
+  forall ax p, eval (PFlip ax p) = eval (PSlice (flip_index ax) p).
+Proof. exact eval_flip_is_slice. Qed.
+
+(* concatenate then slice the other axes = concatenate the slices *)
+Theorem C01_slice_over_concat :
+  forall ax sl ps s r,
+  pshape (PConcat ax ps) = Some s -> length sl = length s -> nth ax sl colon = colon ->
+  eval (PSlice (map ISlice sl) (PConcat ax ps)) = Some r ->
+  eval (PConcat ax (map (fun p => PSlice (map ISlice sl) p) ps)) = Some r.
+Proof. exact eval_slice_concat. Qed.
+
+(* a reduction (sum, prod, min, max, any, all, count_nonzero, argmin, argmax) over one axis commutes
+   with slicing the other axes, with and without keepdims *)
+Theorem C01_slice_over_reduce :
+  forall f ax kd sl p s r,
+  pshape p = Some s -> length sl = length s -> nth ax sl colon = colon ->
+  eval (PSlice (map ISlice (red_index ax kd sl)) (PReduce f (Some [ax]) kd p)) = Some r ->
+  eval (PReduce f (Some [ax]) kd (PSlice (map ISlice sl) p)) = Some r.
+Proof. exact eval_slice_reduce. Qed.
+
+(* ---------------------------------------------------------------------- *)
+(* the hypotheses are satisfiable, and the evaluator computes what NumPy computes, on concrete programs *)
+Definition ex_x : prog := PSrc [3; 4] [0; 1; 2; 3; 10; 11; 12; 13; 20; 21; 22; 23].
+Definition ex_y : prog := PSrc [3; 4] [5; -1; 7; 0; 2; 2; -3; 9; 1; 1; 1; 1].
+Definition sl_ (a b k : option Z) : pslice := mkslice a b k.
+
+Example C01_eval_ex :
+  (* x[::-1, 1:4:2].T *)
+  eval (PT [1; 0]%nat (PSlice [ISlice (sl_ None None (Some (-1))); ISlice (sl_ (Some 1) (Some 4) (Some 2))] ex_x))
+    = Some (mknd [2; 3] [21; 11; 1; 23; 13; 3]) /\
+  (* np.where(y > 0, x, y).sum(axis=0) *)
+  eval (PReduce RSum (Some [0%nat]) false (PWhere (PElem EGt [ex_y; PConst 0]) ex_x ex_y))
+    = Some (mknd [4] [30; 31; 21; 36]) /\
+  (* x.argmax(), np.cumsum(y, axis=1)[2], x.reshape(2, -1)[1, :3], np.roll(np.arange(5), 2) *)
+  eval (PReduce RArgmax None false ex_x) = Some (mknd [] [11]) /\
+  eval (PSlice [IInt 2] (PCum CSum 1%nat ex_y)) = Some (mknd [4] [1; 2; 3; 4]) /\
+  eval (PSlice [IInt 1; ISlice (sl_ None (Some 3) None)] (PReshape [2; -1] ex_x)) = Some (mknd [3] [12; 13; 20]) /\
+  eval (PRoll 2 0%nat (PArange 5)) = Some (mknd [5] [3; 4; 0; 1; 2]) /\
+  (* NumPy raises: shapes (3,4) and (3,) do not broadcast; axis 2 of a 2-d array; max of an empty axis *)
+  eval (PElem EAdd [ex_x; PArange 3]) = None /\ pshape (PElem EAdd [ex_x; PArange 3]) = None /\
+  eval (PFlip 2%nat ex_x) = None /\
+  eval (PReduce RMax (Some [0%nat]) false (PSlice [ISlice (sl_ (Some 3) None None)] ex_x)) = None /\
+  pshape (PStack 1%nat [ex_x; ex_y; ex_x]) = Some [3; 3; 4].
+Proof. vm_compute. repeat split; reflexivity. Qed.
+
+Example C01_laws_ex :
+  let sl1 := [sl_ None None (Some (-1)); sl_ (Some 1) None (Some 2)] in
+  let sl2 := [sl_ (Some 2) None (Some (-2)); sl_ None None (Some (-1))] in
+  (* x[::-1, 1::2][2::-2, ::-1] = x[0:3:2, 3:0:-2] *)
+  pshape ex_x = Some [3; 4] /\ sl_okb sl1 = true /\ sl_okb sl2 = true /\
+  map3 compose_sel sl1 sl2 [3; 4] = [sl_ (Some 0) (Some 4) (Some 2); sl_ (Some 3) None (Some (-2))] /\
+  eval (PSlice (map ISlice sl2) (PSlice (map ISlice sl1) ex_x)) = Some (mknd [2; 2] [3; 1; 23; 21]) /\
+  eval (PSlice (map ISlice (map3 compose_sel sl1 sl2 [3; 4])) ex_x) = Some (mknd [2; 2] [3; 1; 23; 21]) /\
+  (* unit steps with the library's composition: x[1:, :3][1:, 1:] = x[2:3, 1:3] *)
+  eval (PSlice (map ISlice (map3 compose_slices [sl_ (Some 1) None None; sl_ None (Some 3) None]
+                                             [sl_ (Some 1) None None; sl_ (Some 1) None None] [3; 4])) ex_x)
+    = eval (PSlice (map ISlice [sl_ (Some 1) None None; sl_ (Some 1) None None])
+             (PSlice (map ISlice [sl_ (Some 1) None None; sl_ None (Some 3) None]) ex_x)) /\
+  (* (x + y)[1, ::2] = x[1, ::2] + y[1, ::2] *)
+  eval (PSlice [IInt 1; ISlice (sl_ None None (Some 2))] (PElem EAdd [ex_x; ex_y])) = Some (mknd [2] [12; 9]) /\
+  eval (PElem EAdd (map (fun p => PSlice [IInt 1; ISlice (sl_ None None (Some 2))] p) [ex_x; ex_y])) = Some (mknd [2] [12; 9]) /\
+  (* x.T[1:3, ::-1] = x[::-1, 1:3].T *)
+  eval (PSlice (map ISlice [sl_ (Some 1) (Some 3) None; sl_ None None (Some (-1))]) (PT [1; 0]%nat ex_x))
+    = Some (mknd [2; 3] [21; 11; 1; 22; 12; 2]) /\
+  eval (PT [1; 0]%nat (PSlice (map ISlice (pickn colon [sl_ (Some 1) (Some 3) None; sl_ None None (Some (-1))] (inv_axes [1; 0]%nat))) ex_x))
+    = Some (mknd [2; 3] [21; 11; 1; 22; 12; 2]) /\
+  (* np.flip(x, 1) = x[:, ::-1] *)
+  eval (PFlip 1%nat ex_x) = Some (mknd [3; 4] [3; 2; 1; 0; 13; 12; 11; 10; 23; 22; 21; 20]) /\
+  (* np.concatenate([x, y], 0)[:, 1::2] = np.concatenate([x[:, 1::2], y[:, 1::2]], 0) *)
+  eval (PSlice (map ISlice [colon; sl_ (Some 1) None (Some 2)]) (PConcat 0%nat [ex_x; ex_y]))
+    = eval (PConcat 0%nat (map (fun p => PSlice (map ISlice [colon; sl_ (Some 1) None (Some 2)]) p) [ex_x; ex_y])) /\
+  eval (PSlice (map ISlice [colon; sl_ (Some 1) None (Some 2)]) (PConcat 0%nat [ex_x; ex_y]))
+    = Some (mknd [6; 2] [1; 3; 11; 13; 21; 23; -1; 0; 2; 9; 1; 1]) /\
+  (* x.max(axis=0)[::-2] = x[:, ::-2].max(axis=0);  x.argmin(axis=1, keepdims) likewise *)
+  eval (PSlice (map ISlice (red_index 0 false [colon; sl_ None None (Some (-2))])) (PReduce RMax (Some [0%nat]) false ex_x))
+    = Some (mknd [2] [23; 21]) /\
+  eval (PReduce RMax (Some [0%nat]) false (PSlice (map ISlice [colon; sl_ None None (Some (-2))]) ex_x))
+    = Some (mknd [2] [23; 21]) /\
+  eval (PT [1; 0]%nat (PT [1; 0]%nat ex_x)) = eval (PT (pickn O [1; 0]%nat [1; 0]%nat) ex_x) /\
+  (* broadcasting: np.where(x > col, x, row)[1:, ::-2] with col (3,1), row (4,) and the scalar-free index per operand *)
+  (let col := PSrc [3; 1] [1; 12; 21] in let row := PSrc [4] [-1; -2; -3; -4] in
+   let sl := [sl_ (Some 1) None None; sl_ None None (Some (-2))] in
+   let e := PWhere (PElem EGt [ex_x; col]) ex_x row in
+   pshape e = Some [3; 4] /\
+   bc_index sl (oshape row) [3; 4] = [sl_ None None (Some (-2))] /\
+   bc_index sl (oshape col) [3; 4] = [sl_ (Some 1) None None; colon] /\
+   eval (PSlice (map ISlice sl) e) = Some (mknd [2; 2] [13; -2; 23; -2]) /\
+   eval (PElem EWhere (map (fun p => PSlice (map ISlice (bc_index sl (oshape p) [3; 4])) p) [PElem EGt [ex_x; col]; ex_x; row]))
+     = Some (mknd [2; 2] [13; -2; 23; -2])).
+Proof. vm_compute. repeat split; reflexivity. Qed.
+
+Print Assumptions C01_eval_wellformed.
+Print Assumptions C01_advertised_shape_is_computed_shape.
+Print Assumptions C01_shape_rule_fails_iff_eval_fails.
+Print Assumptions C01_shape_rule_total_on_valid.
+Print Assumptions C01_every_unary_operation_reads_in_bounds.
+Print Assumptions C01_every_nary_operation_reads_in_bounds.
+Print Assumptions C01_eval_is_tabulated_denotation.
+Print Assumptions C01_rechunk_is_identity.
+Print Assumptions C01_compose_sel_exact.
+Print Assumptions C01_slice_of_slice.
+Print Assumptions C01_slice_of_slice_library_compose.
+Print Assumptions C01_slice_over_elemwise.
+Print Assumptions C01_slice_over_elemwise_broadcasting.
+Print Assumptions C01_transpose_of_transpose.
+Print Assumptions C01_slice_over_transpose.
+Print Assumptions C01_flip_is_negative_step_slice.
+Print Assumptions C01_slice_over_concat.
+Print Assumptions C01_slice_over_reduce.
